@@ -927,8 +927,8 @@ class Terminal:
                         f"expected CoE cmd SDORES, got {coecmd}")
                 if sdocmd & 0xe0 != 0:
                     raise EtherCatError(f"requested index {index}, got {idx}")
-                if sdocmd & 1 and len(data) == 7:
-                    data = data[:3 + (sdocmd >> 1) & 7]
+                if len(data) == 10:
+                    data = data[:10 - ((sdocmd >> 1) & 7)]
                 ret.append(data[3:])
                 retsize += len(data) - 3
                 if sdocmd & 1:
